@@ -66,8 +66,16 @@ class SocksModels(CommonModels):
                 if p6 is not None:
                     out.extend(ex.raise_(p6, OSError, 'illegal IP address string passed to inet_aton'))
                 if pn is not None:
-                    # hostnames: inet_aton accepts some non-dotted-quad forms; outside our use
-                    raise Unsupported('inet_aton on a non-literal')
+                    # not an address by ipaddress' rules: inet_aton raises OSError, except for the
+                    # legacy short forms ('1', '1.2', '0x7f.1') which it still packs into 4 bytes
+                    pa = pn.fork()
+                    acc = ex.fresh_bool(pa, 'aton_legacy_form')
+                    pa.assume(acc)
+                    pn.assume(z3.Not(acc))
+                    r = ex.fresh_str(pa, 'aton')
+                    pa.assume(z3.Length(r) == 4)
+                    out.append((pa, VBytes(r)))
+                    out.extend(ex.raise_(pn, OSError, 'illegal IP address string passed to inet_aton'))
             return out
         if obj is socket.inet_pton:
             self.assumptions.add('socket.inet_pton(AF_INET, v4 literal) is 4 bytes, (AF_INET6, v6 literal) is 16 bytes, '
@@ -200,6 +208,9 @@ def make_addr(ctx, path, kind):
         path.assume(z3.And(F_family(host) != 4, F_family(host) != 6))
     else:
         path.assume(F_family(host) == fam)
+        # A7: an IP literal is short ASCII text
+        path.assume(z3.And(z3.Length(host) >= 2, z3.Length(host) <= 45,
+                           z3.InRe(host, z3.Star(z3.Range(mk_str('\x00'), mk_str('\x7f'))))))
     return a, host, port
 
 
